@@ -5,6 +5,13 @@ From V Require Import lib.Words gen.GenHuffman spec.PrefixCode model.Huffman pro
 Import ListNotations.
 Open Scope N_scope.
 
+(* The proofs below are about these values of the regenerated constants.  If the code changes one
+   of them this lemma fails at once (instead of some later tactic searching for a long time). *)
+Lemma pinned_rle_constants :
+  rep_nonzero_consts = [7; 3; 0; 1; 1; 3; 1; 16; 3; 2] /\ rep_zero_consts = [11; 3; 0; 1; 3; 1; 17; 7; 3] /\
+  rle_initial_previous = 8.
+Proof. repeat split; vm_compute; reflexivity. Qed.
+
 (* ------------------------------------------------------------------ the expansion side *)
 Lemma push_n_repeat k v l : push_n k v l = repeat v k ++ l.
 Proof.
